@@ -826,6 +826,8 @@ PROPS = {
                      # zoo type, embedded pointers re-allocated between the rows) leaves the second row in them
                      {"kind": "scan", "n": {"quick": 2000, "thorough": 50000}, "oracle_props": ["C14"]}]},
     "C15": {"runs": [iter_run_spec(proj_iter_c15, ["C15"]),
+                     # ... also inside a transaction, with the shape of the statement changing underneath it
+                     tx_run_spec(["C15"], compare=False, nq=200),
                      # at value level: what Get stores (first row) and what GetAll appends, for every destination type of the zoo
                      {"kind": "scan", "n": {"quick": 3000, "thorough": 100000}, "oracle_props": ["C15"]}]},
     "C03": {"uses_genconsts": True, "runs": [bind_run(proj_bind_c03, ["C03"]),
